@@ -3,6 +3,7 @@ import Fdo.Drv.Typed
 import Fdo.Drv.Cose
 import Fdo.Drv.Prim
 import Fdo.Drv.Kex
+import Fdo.Drv.Voucher
 /-
 Line-protocol driver: one operation per input line, one reply per output line.
 Imports model modules only (no proofs, no Mathlib) so that it links as a `lean_exe`.
@@ -16,6 +17,7 @@ def handlers : List (String × (String → List String → Option String)) := [
   ("cose.", Drv.Cose.handle),
   ("prim.", Drv.Prim.handle),
   ("kex.", Drv.Kex.handle),
+  ("voucher.", Drv.Voucher.handle),
 ]
 
 def dispatch (line : String) : String :=
